@@ -560,6 +560,9 @@ func (e *Engine) replay(o *Obligation, dir string) (string, string) {
 		if strings.HasPrefix(o.Func, "main.") {
 			file, pkg, test = "cli_bounded_test.go", "cmd/gts/", "TestVerifBoundedCLI"
 		}
+		if strings.HasPrefix(o.Func, "gts.AsModifier") {
+			file, test = "modifier_bounded_test.go", "TestVerifBoundedModifierText"
+		}
 		if strings.HasPrefix(o.Func, "gts.AsLocation") {
 			file, test = "location_bounded_test.go", "TestVerifBoundedLocationText"
 		}
